@@ -253,17 +253,27 @@ void run(size_t idx) {
 		if (rootNotFirst) {
 			// a file whose first block is a loose one and whose root node comes second (other tools write such files)
 			auto& hdr = cp.GetHeader();
-			auto loose = std::make_unique<NiStringExtraData>();
-			loose->name.get() = "loose block in front of the root";
-			loose->stringData.get() = "nothing refers to this";
-			hdr.AddBlock(std::move(loose));
+			if ((idx / 5) % 2 == 0) {
+				auto loose = std::make_unique<NiStringExtraData>();
+				loose->name.get() = "loose block in front of the root";
+				loose->stringData.get() = "nothing refers to this";
+				hdr.AddBlock(std::move(loose));
+				m.desc += " [loose block first, root second]";
+				R_stat("models_with_a_loose_block_in_front_of_the_root");
+			}
+			else {
+				// a child node of the root stored in front of it (children before parents is a legal block order)
+				MatTransform t;
+				t.translation = Vector3(1, 2, 3);
+				cp.AddNode("ChildStoredFirst", t);
+				m.desc += " [a child node of the root first, root second]";
+				R_stat("models_with_a_child_node_in_front_of_the_root");
+			}
 			uint32_t n = hdr.GetNumBlocks();
 			std::vector<uint32_t> order(n);
 			for (uint32_t i = 0; i + 1 < n; i++) order[i] = i + 1;
 			order[n - 1] = 0;
 			hdr.SetBlockOrder(order);
-			m.desc += " [loose block first, root second]";
-			R_stat("models_with_a_loose_block_in_front_of_the_root");
 		}
 		if (idx % 4 == 1 && cp.GetShapes().size() > 1) cp.GetShapes()[1]->name.get() = cp.GetShapes()[0]->name.get();   // duplicate sibling names
 		uint32_t nbBuilt = cp.GetHeader().GetNumBlocks();
@@ -289,7 +299,7 @@ void run(size_t idx) {
 
 MonReg reg({"C04", "exploration",
 			"models: 52 real samples (collision/constraint graphs, controller chains, ordered nodes, loose blocks, non-zero root), one synthesised graph per block type x version x seed "
-			"(ownership trees by default, shared targets as a switched stress dimension), API-built models with 2-4 shapes incl. duplicate sibling names and (one in five, unskinned) a loose block stored in front of the root node. Per model and operation in "
+			"(ownership trees by default, shared targets as a switched stress dimension), API-built models with 2-4 shapes incl. duplicate sibling names and (one in five, unskinned) a loose block or a child node of the root stored in front of the root node. Per model and operation in "
 			"{PrettySortBlocks, Optimize, DeleteUnreferencedBlocks, Save(default), SetShapeOrder with identity/reversed/shuffled/duplicate-name/missing-name/wrong-length orders}: graph "
 			"snapshots (object identity, canonical payload with bounding spheres masked, hook-located reference slots, node child lists) before and after. Oracle: survivors distinct and "
 			"typed as the header says; only blocks unreachable from the root and unreferenced by survivors vanish; every slot designates the same object; node child sets equal and no "
